@@ -51,6 +51,11 @@ func verifHarness_C14_client(udp int, fails int, second int) {
 	fake := &verifNetConn{}
 	verifSetDialer(func() (net.Conn, error) {
 		attempts++
+		if attempts > fails+1 {
+			// the peer is back since attempt fails+1: a correct client is connected by now
+			verifAssert(false, "C14/T2/connects-as-soon-as-the-peer-is-reachable-again")
+			verifStop()
+		}
 		if attempts <= fails {
 			return nil, verifErrOpen
 		}
@@ -58,6 +63,8 @@ func verifHarness_C14_client(udp int, fails int, second int) {
 	})
 	n := verifBareNode(V2, 1, 1)
 	idle, wto := verifNondetI64(), verifNondetI64()
+	// connect timeout 10 s, reconnect period 2 s: with 5 or more failed attempts the waits add up to more than one
+	// connect timeout (every attempt must get a fresh one)
 	n.IdleTimeout, n.WriteTimeout, n.ReadTimeout = time.Duration(idle), time.Duration(wto), 10*time.Second
 	var conf endpointClientConf = EndpointTCPClient{"1.2.3.4:5600"}
 	if udp == 1 {
@@ -101,6 +108,56 @@ func verifHarness_C14_terminated() {
 	_, conn, err := e.provide()
 	verifAssert(err == errTerminated && conn == nil, "C14/T2/closed-endpoint-reports-terminated")
 	verifReach("C14/T2t")
+}
+
+// scripted listener for the server endpoint
+type verifListener struct {
+	conns  []net.Conn
+	idx    int
+	closed int
+}
+
+func (l *verifListener) Accept() (net.Conn, error) {
+	if l.idx < len(l.conns) {
+		c := l.conns[l.idx]
+		l.idx++
+		return c, nil
+	}
+	return nil, verifErrOpen
+}
+func (l *verifListener) Close() error   { l.closed++; return nil }
+func (l *verifListener) Addr() net.Addr { return nil }
+
+// T4 (server endpoints): every accepted peer gets its own connection, wrapped with the idle timeout on the read
+// side and the write timeout on the write side; the endpoint keeps accepting; an accept error waits for termination.
+func verifHarness_C14_server(udp int) {
+	n := verifBareNode(V2, 1, 1)
+	idle, wto, rto := verifNondetI64(), verifNondetI64(), verifNondetI64()
+	n.IdleTimeout, n.WriteTimeout, n.ReadTimeout = time.Duration(idle), time.Duration(wto), time.Duration(rto)
+	c1, c2 := &verifNetConn{}, &verifNetConn{}
+	l := &verifListener{conns: []net.Conn{c1, c2}}
+	var conf endpointServerConf = EndpointTCPServer{"0.0.0.0:5600"}
+	if udp == 1 {
+		conf = EndpointUDPServer{"0.0.0.0:5600"}
+	}
+	e := &endpointServer{node: n, conf: conf, listener: l, terminate: make(chan struct{})}
+	verifAssert(!e.oneChannelAtAtime(), "C14/T4/server-endpoints-serve-several-peers")
+	for i, want := range []net.Conn{c1, c2} {
+		_, conn, err := e.provide()
+		verifAssert(err == nil && conn != nil, "C14/T4/each-accepted-peer-gets-a-connection")
+		rt, wt, wrapped, ok := timednetconn.VerifTimeouts(conn)
+		verifAssert(ok && wrapped == want && l.idx == i+1, "C14/T4/connection-wrapped-with-deadlines")
+		verifAssert(rt == time.Duration(idle), "C14/T4/read-side-bounded-by-the-idle-timeout")
+		verifAssert(wt == time.Duration(wto), "C14/T4/write-side-bounded-by-the-write-timeout")
+	}
+	var perr error
+	blocked := verifRunUntilBlocked(func() { _, _, perr = e.provide() })
+	verifAssert(blocked, "C14/T4/accept-error-waits-for-termination")
+	e.close()
+	verifAssert(l.closed == 1, "C14/T4/close-releases-the-listener")
+	_, _, perr = e.provide()
+	verifAssert(perr == errTerminated, "C14/T4/terminated-endpoint-reports-it")
+	verifReach("C14/T4")
 }
 
 type verifNetConn struct{ verifRWC }
